@@ -195,5 +195,6 @@ def run(tier, seed, part=None):
             res = explorer.explore(SPEC, params, depth, dev, time_cap=cap, seed=seed, do_finish=False,
                                    label=f"at{gen}/{extra}/d{depth}")
             chk.add_explorer(f"at{gen}/{extra['max_send']}sends/{extra['max_adv']}adv", SPEC, params, res, {"depth": depth, "deviations": dev, **extra})
+    chk.add_audit(SPEC, {"gen": 4, "max_send": 5, "max_adv": 2, "pattern": "BBBBB"}, 6, 0, limit=4000 if tier == "thorough" else 600)
     chk.cov["not_open_cases"] = not_open_cases(chk)
     return chk.finish()
